@@ -50,9 +50,9 @@ macro_rules! full_nodebug {
 }
 
 macro_rules! triple {
-    ($v:ident, $krate:expr, $full:ty, $enc:ty, $dec:ty, $nfull:expr, $nenc:expr, $ndec:expr, $len:expr, $names:expr) => {
+    ($v:ident, $krate:expr, $full:ty, $enc:ty, $dec:ty, $nfull:expr, $nenc:expr, $ndec:expr, $len:expr, $sfx:expr) => {
         $v.push(Box::new(Gen::<$full> {
-            meta: Meta { name: $nfull, krate: $krate, lens: || vec![$len], names: &[$nfull] },
+            meta: Meta { name: concat!($nfull, $sfx), krate: $krate, lens: || vec![$len], names: &[$nfull] },
             e: &EncYes,
             d: &DecYes,
             c: &CloneYes,
@@ -61,7 +61,7 @@ macro_rules! triple {
             v: None,
             name_override: None,
             conv: Some((
-                $nenc,
+                concat!($nenc, $sfx),
                 |k| <$full>::from(<$enc>::new(&key_of::<$enc>(k))),
                 |k| {
                     let e = <$enc>::new(&key_of::<$enc>(k));
@@ -72,7 +72,7 @@ macro_rules! triple {
             )),
         }));
         $v.push(Box::new(Gen::<$enc> {
-            meta: Meta { name: $nenc, krate: $krate, lens: || vec![$len], names: &[$nenc] },
+            meta: Meta { name: concat!($nenc, $sfx), krate: $krate, lens: || vec![$len], names: &[$nenc] },
             e: &EncYes,
             d: &DecNo,
             c: &CloneYes,
@@ -88,7 +88,7 @@ macro_rules! triple {
             conv: None,
         }));
         $v.push(Box::new(Gen::<$dec> {
-            meta: Meta { name: $ndec, krate: $krate, lens: || vec![$len], names: &[$ndec] },
+            meta: Meta { name: concat!($ndec, $sfx), krate: $krate, lens: || vec![$len], names: &[$ndec] },
             e: &EncNo,
             d: &DecYes,
             c: &CloneYes,
@@ -97,7 +97,7 @@ macro_rules! triple {
             v: None,
             name_override: None,
             conv: Some((
-                $nenc,
+                concat!($nenc, $sfx),
                 |k| <$dec>::from(<$enc>::new(&key_of::<$enc>(k))),
                 |k| {
                     let e = <$enc>::new(&key_of::<$enc>(k));
@@ -107,7 +107,6 @@ macro_rules! triple {
                 },
             )),
         }));
-        let _ = $names;
     };
 }
 
@@ -266,9 +265,10 @@ pub fn range(a: usize, b: usize) -> Vec<usize> {
 /// Subjects whose code depends on the build configuration (cfg flags / CPU detection).
 pub fn sensitive_subjects() -> Vec<Box<dyn Subject>> {
     let mut v: Vec<Box<dyn Subject>> = Vec::new();
-    triple!(v, "aes", aes::Aes128, aes::Aes128Enc, aes::Aes128Dec, "Aes128", "Aes128Enc", "Aes128Dec", 16, ());
-    triple!(v, "aes", aes::Aes192, aes::Aes192Enc, aes::Aes192Dec, "Aes192", "Aes192Enc", "Aes192Dec", 24, ());
-    triple!(v, "aes", aes::Aes256, aes::Aes256Enc, aes::Aes256Dec, "Aes256", "Aes256Enc", "Aes256Dec", 32, ());
+    shadow_subjects(&mut v);
+    triple!(v, "aes", aes::Aes128, aes::Aes128Enc, aes::Aes128Dec, "Aes128", "Aes128Enc", "Aes128Dec", 16, "");
+    triple!(v, "aes", aes::Aes192, aes::Aes192Enc, aes::Aes192Dec, "Aes192", "Aes192Enc", "Aes192Dec", 24, "");
+    triple!(v, "aes", aes::Aes256, aes::Aes256Enc, aes::Aes256Dec, "Aes256", "Aes256Enc", "Aes256Dec", 32, "");
     triple!(
         v,
         "kuznyechik",
@@ -279,10 +279,28 @@ pub fn sensitive_subjects() -> Vec<Box<dyn Subject>> {
         "KuznyechikEnc",
         "KuznyechikDec",
         32,
-        ()
+        ""
     );
     full!(v, serpent::Serpent, "Serpent", "serpent", range(16, 32), &["Serpent"]);
     v
+}
+
+/// Shadow builds of code that is not native to this host (DESIGN §2.2): ARMv8 AES over the intrinsic model,
+/// 32-bit fixslice AES, NEON Kuznyechik over the intrinsic model.  Subject names carry an `@variant` suffix.
+fn shadow_subjects(v: &mut Vec<Box<dyn Subject>>) {
+    #[cfg(not(aes_force_soft))]
+    {
+        triple!(v, "aes", aes_armv8::Aes128, aes_armv8::Aes128Enc, aes_armv8::Aes128Dec, "Aes128", "Aes128Enc", "Aes128Dec", 16, "@armv8");
+        triple!(v, "aes", aes_armv8::Aes192, aes_armv8::Aes192Enc, aes_armv8::Aes192Dec, "Aes192", "Aes192Enc", "Aes192Dec", 24, "@armv8");
+        triple!(v, "aes", aes_armv8::Aes256, aes_armv8::Aes256Enc, aes_armv8::Aes256Dec, "Aes256", "Aes256Enc", "Aes256Dec", 32, "@armv8");
+    }
+    triple!(v, "aes", aes_fs32::Aes128, aes_fs32::Aes128Enc, aes_fs32::Aes128Dec, "Aes128", "Aes128Enc", "Aes128Dec", 16, "@fs32");
+    triple!(v, "aes", aes_fs32::Aes192, aes_fs32::Aes192Enc, aes_fs32::Aes192Dec, "Aes192", "Aes192Enc", "Aes192Dec", 24, "@fs32");
+    triple!(v, "aes", aes_fs32::Aes256, aes_fs32::Aes256Enc, aes_fs32::Aes256Dec, "Aes256", "Aes256Enc", "Aes256Dec", 32, "@fs32");
+    #[cfg(not(any(kuznyechik_backend = "soft", kuznyechik_backend = "compact_soft")))]
+    {
+        triple!(v, "kuznyechik", kuz_neon::Kuznyechik, kuz_neon::KuznyechikEnc, kuz_neon::KuznyechikDec, "Kuznyechik", "KuznyechikEnc", "KuznyechikDec", 32, "@neon");
+    }
 }
 
 #[cfg(not(feature = "lite"))]
